@@ -23,6 +23,7 @@ EXTRA_DEPS = {
     "dep/kinds": ("kinds", "type Text interface{ ~string }\ntype Real interface{ ~float32 | ~float64 }\n"
                            "type Entity struct{}\n"),
     "dep/subvendor/model": ("model", "type T struct{}\ntype Row struct{}\n"),
+    "dep/yaml": ("yaml", "type T struct{}\ntype Node struct{}\n"),
     "dep/gw/gateway": ("paygw", "type Charge struct{}\ntype Receipt struct{}\ntype T struct{}\n"
                                 "type Processor interface {\n\tPay(c Charge) (*Receipt, error)\n}\n"),
 }
@@ -393,6 +394,25 @@ case("fixed-numbertwo", "adv/fixed", ["NumberTwo"])
 case("fixed-bodynames", "adv/fixed", ["BodyNames"], stub=True)
 case("fixed-renamed", "adv/fixed", ["Renamed"])
 case("fixed-value", "adv/fixed", ["Default"])
+# D12a: a user package called like a standard package moq imports itself
+FILES["adv/fixed/sync_user.go"] = """package fixed
+
+import (
+	"example.com/m/dep/ctx/context"
+	"example.com/m/dep/sync"
+)
+
+type Locker interface {
+	Hold(t sync.T) error
+}
+
+type Scoped interface {
+	In(s context.Scope)
+}
+"""
+case("fixed-sync", "adv/fixed", ["Locker"])
+case("fixed-sync-m", "adv/fixed", ["Locker"], pkg="mocks", stub=True, resets=True)
+case("fixed-sync-both", "adv/fixed", ["Scoped", "Locker"])
 case("fixed-value-k2", "adv/fixed", ["NumberTwo", "Default"])
 
 
@@ -765,6 +785,28 @@ type Level uint8
 for a in (["FetchSpy", "Fetcher"], ["Fetcher", "FetchSpy"], ["Meter"], ["Fetcher"]):
     case("resetspy-" + "-".join(a), "adv/resetspy", a, resets=True)
     case("resetspy-%s-plain" % "-".join(a), "adv/resetspy", a, stub=True)
+
+# D12 (what remains): two paths with the same unique name at every level
+FILES["adv/yamls/a.go"] = """package yamls
+
+import "example.com/m/dep/go-yaml"
+
+type Old interface{ Load(y yaml.T) }
+"""
+FILES["adv/yamls/b.go"] = """package yamls
+
+import "example.com/m/dep/yaml"
+
+type New interface{ Parse(n yaml.Node) }
+
+type Both interface {
+	Old
+	New
+}
+"""
+case("yamls-both", "adv/yamls", ["Both"])
+case("yamls-on", "adv/yamls", ["Old", "New"], pkg="mocks")
+case("yamls-old", "adv/yamls", ["Old"])
 
 # D31: goimports, sibling files and a package name that cannot be guessed from the path
 FILES["adv/goimp/a.go"] = """package goimp
